@@ -24,7 +24,7 @@ CHECKS = {
    design="6 C07"),
  "C14": dict(
    text="Bounded exhaustive symbolic check of the Python/pandas part of the accounting: LoadCollective derived quantities (upper-lower = 2 amplitude, mean, R with its IEEE cases, cycles), equivalence of range/mean and from/to descriptions, scale/shift with symbolic operand leaving cycles untouched; rebin_histogram / combine_histogram with symbolic non-negative counts over an enumerated family of gap-free binnings (regular, irregular, single class, identical, refining, coarsening, integer bin count): total conserved, identity, composition through a refining binning, grand total and per-class sums of a sum-combination.",
-   note="Claimed in part: the np.histogram/np.histogram2d based clauses (C code on float64) and symbolic bin edges are outside. Bounds: 1..2 (quick) / 1..3 (thorough) collective rows; binnings with 1..2 / 1..3 classes on the grid {0,0.5,1,2,3,4}. Totals compared with 1e-12 relative tolerance because overlap fractions are float constants.",
+   note="Claimed in part: the np.histogram/np.histogram2d based clauses (C code on float64) and symbolic bin edges are outside. Bounds: 1..2 (quick) / 1..3 (thorough) collective rows; binnings with 1..2 / 1..4 classes on the grid {0,0.5,1,2,3,4} (1-D, 2-D, permuted source order). Totals compared with 1e-12 relative tolerance because overlap fractions are float constants.",
    design="6 C14"),
  "C12": dict(
    text="Bounded exhaustive symbolic check of the real mean-stress transformation code (HaighDiagram.transform, _SegmentTransformer, fkm_goodman, five_segment_correction, collective and matrix accessors): amplitude > 0 and mean symbolic, so every sector of the Haigh plane and every border (R = 0, +-inf, 1, R12, R23) is a path. FKM-Goodman result == geometric iso-damage walk oracle; for FKM-Goodman and five-segment diagrams: T_R2 o T_R1 == T_R2, idempotence, cycle on the target ray unchanged, non-decreasing in amplitude; plain function == collective accessor (range/mean and from/to); matrix accessor conserves the symbolic cycle counts.",
@@ -52,7 +52,7 @@ CHECKS = {
    design="6 C05"),
  "C08": dict(
    text="Symbolic check of the real WoehlerCurve accessor in log-domain arithmetic (every positive quantity is 10**e with e a real symbol, so the power laws are linear arithmetic on exponents): cycles/load mutual inverses across the knee and for k_2 = inf, knee value, slopes k_1 above and k_2 below the endurance limit, non-increasing in load, Miner variants change only k_2 and leave the original untouched, cycles grow with the failure probability, N_90/N_10 = TN and SD_90/SD_10 = TS, group law and identity of transform_to_failure_probability, std <-> scatter range inverses with T = 10**(2 z_0.9 s), array and Series input == scalar calls.",
-   note="SD, ND, TN, TS, load, cycles symbolic in [1e-12, 1e12] (scatter in [1, 1e3]); slopes k_1 in {3,5,7.5}, k_2 in {k_1, 2k_1-1, k_1+2, inf} and failure probabilities concrete; scipy.stats.norm.ppf runs for real. Clauses marked ~ carry a relative tolerance of 1e-9 on the exponent (the code uses fl(-1/k) and the literal 0.39015207303618954). np/pd facades (self-tested). Indexed curves (broadcasting) are C13.",
+   note="SD, ND, TN, TS, load, cycles symbolic in [1e-12, 1e12] (scatter in [1, 1e3]); slopes k_1 in {3,5,7.5}, k_2 in {k_1, 2k_1-1, k_1+2, inf} (thorough additionally symbolic 1 < k_1 <= 20, k_1 <= k_2 <= k_1+20) and failure probabilities concrete; scipy.stats.norm.ppf runs for real. Clauses marked ~ carry a relative tolerance of 1e-9 on the exponent (the code uses fl(-1/k) and the literal 0.39015207303618954). np/pd facades (self-tested). Indexed curves (broadcasting) are C13.",
    design="6 C08"),
  "C09": dict(
    text="Symbolic check of the encodable clauses: P_RAM / P_RAJ component Woehler curves (log domain): calc_N and calc_P mutual inverses in the finite range, continuity at N = 1e3 and at the endurance knee, strictly decreasing, infinite at and below the endurance value; P_RAM damage parameter == sqrt((S_a + k S_m) eps_a E) with the guideline's mean-stress factor and zero for a negative product (sqrt exact); DamageCalculatorPRAM lifetime (sequence repetitions and cycles, infinite-life flag) == literal accumulation of first-pass damage once and second-pass damage repeatedly, half hystereses half, early failure by running sum, for every closed/half x pass pattern up to the bound; gamma_L of the normal / log-normal / blanket load safety accessors == guideline formulas.",
@@ -60,7 +60,7 @@ CHECKS = {
    design="6 C09"),
  "C18": dict(
    text="Bounded exhaustive symbolic check of the one encodable clause: FatigueData zone logic on symbolic loads and cycles for every fracture-flag pattern: finite and infinite zone are disjoint and cover all tests, every infinite-zone load <= reported transition <= every finite-zone load, all tests in the finite zone without run-outs, zone membership and transition invariant under row permutation.",
-   note="Claimed for this clause only: equivariance, exact recovery and likelihood ordering of the Elementary / Probit / MaxLike analyzers are outside (least squares, scipy.optimize.fmin, norm.ppf on symbolic data have no encoding). 2..3 (quick) / 2..4 (thorough) test rows; admissible data (two distinct fracture loads and cycle numbers). pandas.Series.unique gets an object-dtype fall-back.",
+   note="Claimed for this clause only: equivariance, exact recovery and likelihood ordering of the Elementary / Probit / MaxLike analyzers are outside (least squares, scipy.optimize.fmin, norm.ppf on symbolic data have no encoding). 2..3 (quick) / 2..5 (thorough) test rows; admissible data (two distinct fracture loads and cycle numbers). pandas.Series.unique gets an object-dtype fall-back.",
    design="6 C18"),
  "C19": dict(
    text="Bounded exhaustive symbolic check of the hot-spot clause: HotSpot.calc on concrete small meshes (shared nodes, disconnected, chains, id gaps, shuffled rows) with symbolic pairwise distinct field values of any sign against union-find components: exactly the entries >= fraction * maximum are labelled, labels are the connected components under shared-node / shared-element adjacency, numbered by descending peak.",
